@@ -94,7 +94,7 @@ def resolve(cx, op, name=None, api=None, envb=None):
                 'open_ioport': ['MIDO_DEFAULT_INPUT', 'MIDO_DEFAULT_OUTPUT', 'MIDO_DEFAULT_IOPORT']}.get(op, [])
     for var in ('MIDO_DEFAULT_INPUT', 'MIDO_DEFAULT_OUTPUT', 'MIDO_DEFAULT_IOPORT'):
         if var in relevant:
-            v = [None, 'env_' + var[13:].lower(), ''][cx.choice(var, 3)]
+            v = [None, 'env_' + var[13:].lower(), '', ' padded ' + var[13:].lower() + ' '][cx.choice(var, 4)]
         else:
             v = 'unrelated_' + var[13:].lower()        # must never be picked up
         if v is not None:
@@ -225,7 +225,7 @@ def set_backend(cx):
 BOUNDS = {
     'quick': 'the full finite grid, every point a solver-certified fork: backend name {absent, module, module/API} x api keyword '
              '{absent, given} x MIDO_BACKEND {unset, module, module/API} x use_environ x load x explicit port name x api= at the '
-             'call x each MIDO_DEFAULT_* {unset, set, empty} x module with/without IOPort and get_devices x virtual/callback/'
+             'call x each MIDO_DEFAULT_* {unset, set, empty, set with surrounding blanks} x module with/without IOPort and get_devices x virtual/callback/'
              'autoreset x 6 device lists (duplicates, split in/out entries, different input/output orders) x the six open_*/get_*_names operations; set_backend '
              'by name, name/API and Backend object',
     'thorough': 'same grid (it is finite and covered completely)',
